@@ -134,6 +134,9 @@ func (x *Exec) invoke(cfg *Config, f *Frame, tg target, args []Val, dest ssa.Val
 		}
 		c := x.P.ContractFor(body)
 		if c != nil && !c.Inline {
+			if len(args) > 0 && body.Signature.Recv() != nil {
+				x.guardedCall(cfg, args[0], fullKey(body), pos)
+			}
 			return x.applyContract(cfg, f, body, c, args, tg.binds, dest, isDefer, pos)
 		}
 		if len(body.Blocks) > 0 && inModuleOrInlinable(body) {
@@ -335,6 +338,15 @@ func (x *Exec) traceCall(cfg *Config, tg target, args []Val) {
 
 func (x *Exec) doReturn(cfg *Config, f *Frame, res []Val) (end bool) {
 	if len(cfg.frames) == 1 {
+		for _, r := range res {
+			if tv, ok := r.(TV); ok {
+				if _, desc, isG := x.guardedSub(cfg, tv.T); isG {
+					// a pointer into mutex-protected memory handed to the caller
+					// is used after the lock is released
+					x.oblige(cfg, "guarded-escape", "returns the address of "+desc, False, []string{"C13"}, f.block.Instrs[f.idx].Pos())
+				}
+			}
+		}
 		x.exitChecks(cfg, f, res)
 		cfg.frames = nil
 		return true
